@@ -285,6 +285,187 @@ func genTokens(repo string) (string, error) {
 	}
 	fmt.Fprintf(&sb, "(* popValue: recursive calls, comparisons against maxValueDepth *)\nDefinition pop_value_recursive_calls : N := %d.\nDefinition pop_value_depth_guards : N := %d.\n", rec, guard)
 
+	// string literals of the functions that build diagnostics, in source order: the model formats
+	// its messages from these, so a reworded message follows the code
+	sb.WriteString("(* string literals per function, in source order: (file:function, literals as bytes) *)\n")
+	sb.WriteString("Definition func_strings : list (string * list (list N)) := [\n")
+	firstS := true
+	for _, ff := range [][2]string{
+		{"lexer.go", "unexpectedEOF"}, {"lexer.go", "NextToken"}, {"lexer.go", "lexNumber"}, {"lexer.go", "lexString"},
+		{"lexer.go", "lexRegex"}, {"lexer.go", "lexEscape"},
+		{"errors.go", "msg"}, {"token.go", "String"}, {"parser.go", "popValue"}, {"parser.go", "fragmentsToFile"},
+	} {
+		_, pf, err := gen.ParseFile(filepath.Join(dir, ff[0]))
+		if err != nil {
+			return "", err
+		}
+		var lits []string
+		seen := false
+		for _, d := range pf.Decls {
+			fd, ok := d.(*ast.FuncDecl)
+			if !ok || fd.Body == nil || fd.Name.Name != ff[1] {
+				continue
+			}
+			// token.go has two String methods: take the one on Token (receiver type Token)
+			if ff[1] == "String" {
+				if fd.Recv == nil || len(fd.Recv.List) != 1 {
+					continue
+				}
+				if id, ok := fd.Recv.List[0].Type.(*ast.Ident); !ok || id.Name != "Token" {
+					continue
+				}
+			}
+			seen = true
+			ast.Inspect(fd.Body, func(n ast.Node) bool {
+				if ff[1] == "String" {
+					// every literal of Token.String (the "..." of the cut is not a call argument)
+					if bl, ok := n.(*ast.BasicLit); ok && bl.Kind == token.STRING {
+						if v, err := strconv.Unquote(bl.Value); err == nil {
+							lits = append(lits, v)
+						}
+					}
+					return true
+				}
+				// elsewhere: only literals passed directly to errf / Sprintf / errors.New / strings.Join
+				ce, ok := n.(*ast.CallExpr)
+				if !ok {
+					return true
+				}
+				name := ""
+				switch f := ce.Fun.(type) {
+				case *ast.Ident:
+					name = f.Name
+				case *ast.SelectorExpr:
+					name = f.Sel.Name
+				}
+				if name != "errf" && name != "Sprintf" && name != "New" && name != "Join" {
+					return true
+				}
+				for _, a := range ce.Args {
+					if bl, ok := a.(*ast.BasicLit); ok && bl.Kind == token.STRING {
+						if v, err := strconv.Unquote(bl.Value); err == nil {
+							lits = append(lits, v)
+						}
+					}
+				}
+				return true
+			})
+		}
+		if !seen {
+			return "", fmt.Errorf("%s: function %s not found", ff[0], ff[1])
+		}
+		if !firstS {
+			sb.WriteString(";\n")
+		}
+		firstS = false
+		fmt.Fprintf(&sb, "  (%s, [", gen.CoqString(ff[0]+":"+ff[1]))
+		for i, l := range lits {
+			if i > 0 {
+				sb.WriteString("; ")
+			}
+			sb.WriteString(gen.NList([]byte(l)))
+		}
+		sb.WriteString("])")
+	}
+	sb.WriteString("\n].\n")
+	// integer literals of Token.String (the length at which a literal is cut, and the cut), in source order
+	{
+		_, tf, err := gen.ParseFile(filepath.Join(dir, "token.go"))
+		if err != nil {
+			return "", err
+		}
+		var ints []string
+		for _, d := range tf.Decls {
+			fd, ok := d.(*ast.FuncDecl)
+			if !ok || fd.Body == nil || fd.Name.Name != "String" || fd.Recv == nil || len(fd.Recv.List) != 1 {
+				continue
+			}
+			if id, ok := fd.Recv.List[0].Type.(*ast.Ident); !ok || id.Name != "Token" {
+				continue
+			}
+			ast.Inspect(fd.Body, func(n ast.Node) bool {
+				if bl, ok := n.(*ast.BasicLit); ok && bl.Kind == token.INT {
+					ints = append(ints, bl.Value)
+				}
+				return true
+			})
+		}
+		fmt.Fprintf(&sb, "(* token.go Token.String: integer literals in source order (cut threshold, kept bytes) *)\nDefinition token_string_ints : list N := [%s].\n", strings.Join(ints, "; "))
+	}
+	// the expected token types of every unexpectedToken(...) / popType(...) call, per function, in source order
+	sb.WriteString("(* expected token types of the unexpectedToken / popType calls per function, in source order *)\n")
+	sb.WriteString("Definition walker_expected : list (string * list (list N)) := [\n")
+	firstE := true
+	for _, d := range pf0.Decls {
+		fd, ok := d.(*ast.FuncDecl)
+		if !ok || fd.Body == nil {
+			continue
+		}
+		var sets [][]int
+		bad := ""
+		ast.Inspect(fd.Body, func(n ast.Node) bool {
+			ce, ok := n.(*ast.CallExpr)
+			if !ok {
+				return true
+			}
+			name := ""
+			switch f := ce.Fun.(type) {
+			case *ast.Ident:
+				name = f.Name
+			case *ast.SelectorExpr:
+				name = f.Sel.Name
+			}
+			var args []ast.Expr
+			switch name {
+			case "unexpectedToken":
+				if len(ce.Args) >= 1 {
+					args = ce.Args[1:]
+				}
+			case "popType":
+				args = ce.Args
+			default:
+				return true
+			}
+			set := []int{}
+			for _, a := range args {
+				id, ok := a.(*ast.Ident)
+				if !ok {
+					bad = fd.Name.Name
+					return true
+				}
+				v, known := code[id.Name]
+				if !known {
+					// popType's own body passes its parameter on: not a site
+					return true
+				}
+				set = append(set, v)
+			}
+			if len(set) > 0 {
+				sets = append(sets, set)
+			}
+			return true
+		})
+		if bad != "" {
+			return "", fmt.Errorf("parser.go: %s passes a non-identifier as expected token type", bad)
+		}
+		if len(sets) == 0 {
+			continue
+		}
+		if !firstE {
+			sb.WriteString(";\n")
+		}
+		firstE = false
+		fmt.Fprintf(&sb, "  (%s, [", gen.CoqString(fd.Name.Name))
+		for i, st := range sets {
+			if i > 0 {
+				sb.WriteString("; ")
+			}
+			sb.WriteString(ilist(st))
+		}
+		sb.WriteString("])")
+	}
+	sb.WriteString("\n].\n")
+
 	sb.WriteString("(* explicit panic( calls per anchored file: (file, enclosing function) *)\n")
 	sb.WriteString("Definition panic_sites : list (string * string) := [")
 	firstP := true
